@@ -369,6 +369,10 @@ func main() {
 		concurrentMain()
 		return
 	}
+	if len(os.Args) > 1 && os.Args[1] == "hammer" {
+		hammer()
+		return
+	}
 	if len(os.Args) > 1 && os.Args[1] == "stress" {
 		stress()
 		return
